@@ -6,6 +6,8 @@ MC          : AtomSyntax_MC — recogniser (Parse) and generator (Render / Featu
               under every EAPI; the open cases come out 'Unspecified'.
 spec -> code: AtomSyntax_Export: all those texts (valid renderings, violations, open cases) x EAPI 0-9 and
               'none' are handed to the real atom(text, eapi=...).
+Every text is parsed twice, with atom(text, eapi=E) and with get_eapi(E).atom_kls(text) (the class ebuild and profile
+dependency strings go through); both must give the specified verdict and equal atoms.
 code -> spec: seeded random valid atoms from a richer grammar and single-edit mutations of them (inserted /
               deleted / replaced characters, missing versions, bad slot/USE/repo characters, version-like
               package-name tails), random EAPI.
@@ -37,7 +39,10 @@ class Binder:
         from pkgcore.ebuild.atom import atom
         from pkgcore.test.misc import FakePkg, FakeRepo
 
+        from pkgcore.ebuild import eapi as eapi_mod
+
         self.atom, self.Malformed, self.FakePkg, self.FakeRepo = atom, errors.MalformedAtom, FakePkg, FakeRepo
+        self.get_eapi = eapi_mod.get_eapi
         self.repos = {}
 
     def repo(self, rid):
@@ -95,7 +100,15 @@ class Binder:
 
     def observe(self, n, text, eapi):
         ev = dict(tid=n, i=0, chars=cps(text), eapi=eapi, accepted=False, raised="", attrs=DUMMY, rendered=[],
-                  rt_ok=False, rt_equal=False, m1=[], m2=[])
+                  rt_ok=False, rt_equal=False, m1=[], m2=[], kls_accepted=False, kls_equal=True)
+        # second entry point: the atom class of the EAPI object (used for ebuild / profile dependency strings)
+        ak = None
+        if eapi != "none":
+            try:
+                ak = self.get_eapi(eapi).atom_kls(text)
+                ev["kls_accepted"] = True
+            except Exception:
+                pass
         try:
             a = self.parse(text, eapi)
         except self.Malformed:
@@ -103,6 +116,10 @@ class Binder:
         except Exception as ex:  # not accepted either; the kind of failure is recorded, not judged
             ev["raised"] = type(ex).__name__
             return ev
+        if eapi == "none":
+            ev["kls_accepted"] = True
+        elif ak is not None:
+            ev["kls_equal"] = bool(ak == a and a == ak)
         ev.update(accepted=True, attrs=self.attrs(a), rendered=cps(str(a)))
         try:
             a2 = self.parse(str(a), eapi)
